@@ -296,8 +296,6 @@ fn stages(tier: Tier) -> Vec<Stage> {
     let s4 = structure_multisets(4, quick, if quick { 2 } else { 3 });
     let conf4 = vec![vec![3u8, 6, 9, 0]];
     let plain4: Vec<Vec<Label>> = vec![vec![T_S; 4]];
-        vec![vec![T_S; 4], vec![T_S, T_S, T_R, T_S]],
-    );
     v.push(Stage {
         name: format!(
             "n=4 plain: {} structure multisets{}{} x {} stance patterns",
